@@ -11,7 +11,8 @@ Import ListNotations.
 Local Open Scope Z_scope.
 
 (** Every history with nondecreasing instants (the clock does not step back)
-    that never overflows the seen cache: no signed content (origin, identifier,
+    in which every handler marks at most [mark_slack] (one minute) after its
+    timestamp check ([hist_ok]) and which never overflows the seen cache: no signed content (origin, identifier,
     timestamp) is accepted twice - whatever is replayed, from whichever peer,
     after whichever other traffic and cleanup passes.  (Each acceptance is what
     makes the agent act: handleSleepCommand / handleWakeCommand act iff the
@@ -32,7 +33,7 @@ Proof. exact forged_leaves_cache. Qed.
 Print Assumptions C29_forged_commands_leave_cache_unchanged.
 
 (** The cache remembers a command at least as long as it can stay valid. *)
-Theorem C29_expiry_covers_validity : forall cfg, 2 * f_window cfg <= sleep_expiry cfg.
+Theorem C29_expiry_covers_validity : forall cfg, 2 * f_window cfg + mark_slack <= sleep_expiry cfg.
 Proof. exact expiry_ge_two_windows. Qed.
 Print Assumptions C29_expiry_covers_validity.
 
@@ -49,6 +50,17 @@ Theorem C29_refuted_flood_evict_pre_fix :
   fst (run_pre_fix small_cfg model_peers [] hist_flood) = [(T0, now_cmd); (T0 + 151 * second, now_cmd)].
 Proof. exact refuted_flood_evict_pre_fix. Qed.
 Print Assumptions C29_refuted_flood_evict_pre_fix.
+
+(** A replay whose timestamp check passes at the last valid instant while a
+    cleanup pass runs before it is marked: rejected thanks to the slack in the
+    expiry, accepted twice with an expiry of exactly twice the window. *)
+Theorem C29_race_with_cleanup :
+  ordered T0 hist_race /\ hist_ok (default_cfg true) hist_race /\
+  run (default_cfg true) model_peers [] hist_race = ([(T0, ahead_cmd)], false) /\
+  run_with handle_split (fun cfg => Z.max (f_ttl cfg) (2 * f_window cfg)) (default_cfg true) model_peers [] hist_race
+  = ([(T0, ahead_cmd); (T0 + 600 * second + 2000000, ahead_cmd)], false).
+Proof. exact race_history_repaired. Qed.
+Print Assumptions C29_race_with_cleanup.
 
 (** The same histories on the repaired code, and non-vacuity of the theorem. *)
 Theorem C29_nonvacuous :
@@ -73,7 +85,8 @@ Theorem C29_source_facts :
   gen_c29_mark_is_one_critical_section = true /\
   gen_c29_mark_refreshes_seen_at_for_other_peer = true /\
   gen_c29_sleep_loopcheck_verify_mark_order = true /\ gen_c29_wake_loopcheck_verify_mark_order = true /\
-  gen_c29_sleep_cache_expiry_is_max_ttl_two_windows = true /\
+  gen_c29_sleep_cache_expiry_is_max_ttl_two_windows_plus_slack = true /\
+  gen_c29_expiry_slack_ns = mark_slack /\
   gen_c29_expiry_test_strict = true /\
   gen_c29_size_eviction_when_over_max = true /\
   gen_c29_cleanup_every_half_ttl = true /\
